@@ -201,6 +201,12 @@ embedded_pairing_core_arch_x86_64_bigint_768_square:
     adc %rbx, %rbx
     adc %r9, %r9
 
+    # For operands that use all 384 bits, doubling carries into the top word
+    # of the result; keep that bit in the destination until the end.
+    movq $0, %rax
+    adc $0, %rax
+    movq %rax, 88(%rdi)
+
     # Add diagonal (r8 stores the carry)
     movq (%rsi), %rax
     mulq %rax
@@ -233,7 +239,7 @@ embedded_pairing_core_arch_x86_64_bigint_768_square:
     add %rax, %r9
     movq %r9, 80(%rdi)
     adc $0, %rdx
-    movq %rdx, 88(%rdi)
+    add %rdx, 88(%rdi)
 
     pop %r15
     pop %r14
